@@ -8,9 +8,18 @@ Import ListNotations.
 (* Elements are arbitrary hashable Python objects; the structure only ever hashes and compares
    them, so the model takes them as codes in Z (the harness interns each distinct object). *)
 
-Record uf := mkuf { elts : list Z; par : list nat; siz : list nat; ncomps : nat }.
+(* _elts, _par, _siz, n_comps, n_elts, _next, _indx (the dict, as an insertion-ordered association list) *)
+Record uf := mkuf { elts : list Z; par : list nat; siz : list nat; ncomps : nat;
+                    n_elts : nat; next : nat; indx : list (Z * nat) }.
 
-Definition uf_empty : uf := mkuf [] [] [] 0.
+Definition uf_empty : uf := mkuf [] [] [] 0 0 0 [].
+
+(* self._indx[x] / x in self._indx *)
+Fixpoint lookup (x : Z) (m : list (Z * nat)) : option nat :=
+  match m with
+  | [] => None
+  | (y, i) :: t => if Z.eqb x y then Some i else lookup x t
+  end.
 
 Fixpoint index_of (x : Z) (l : list Z) : option nat :=
   match l with
@@ -18,13 +27,15 @@ Fixpoint index_of (x : Z) (l : list Z) : option nat :=
   | y :: t => if Z.eqb x y then Some 0 else option_map S (index_of x t)
   end.
 
+(* unionfind.py: __contains__ *)
 Definition mem (s : uf) (x : Z) : bool :=
-  match index_of x (elts s) with Some _ => true | None => false end.
+  match lookup x (indx s) with Some _ => true | None => false end.
 
 (* unionfind.py: add *)
 Definition add (s : uf) (x : Z) : uf :=
   if mem s x then s
-  else mkuf (elts s ++ [x]) (par s ++ [length (par s)]) (siz s ++ [1]) (S (ncomps s)).
+  else mkuf (elts s ++ [x]) (par s ++ [next s]) (siz s ++ [1]) (S (ncomps s))
+            (S (n_elts s)) (S (next s)) (indx s ++ [(x, next s)]).
 
 Fixpoint upd {A} (l : list A) (i : nat) (v : A) : list A :=
   match l, i with
@@ -49,13 +60,17 @@ Fixpoint find_loop (fuel : nat) (p : list nat) (i : nat) : option (list nat * na
       else find_loop f (upd p i (getp p q)) q
   end.
 
+(* the state with another parent array *)
+Definition with_par (s : uf) (p : list nat) : uf :=
+  mkuf (elts s) p (siz s) (ncomps s) (n_elts s) (next s) (indx s).
+
 Definition find (s : uf) (x : Z) : res (uf * nat) :=
-  match index_of x (elts s) with
+  match lookup x (indx s) with
   | None => ValueError
   | Some i =>
       match find_loop (S (length (par s))) (par s) i with
       | None => OutOfFuel
-      | Some (p', r) => Ok (mkuf (elts s) p' (siz s) (ncomps s), r)
+      | Some (p', r) => Ok (with_par s p', r)
       end
   end.
 
@@ -81,8 +96,10 @@ Definition union (s : uf) (x y : Z) : res uf :=
             let sx := nth xr (siz s2) 0 in
             let sy := nth yr (siz s2) 0 in
             if Nat.ltb sx sy
-            then Ok (mkuf (elts s2) (upd (par s2) xr yr) (upd (siz s2) yr (sy + sx)) (pred (ncomps s2)))
-            else Ok (mkuf (elts s2) (upd (par s2) yr xr) (upd (siz s2) xr (sx + sy)) (pred (ncomps s2)))
+            then Ok (mkuf (elts s2) (upd (par s2) xr yr) (upd (siz s2) yr (sy + sx)) (pred (ncomps s2))
+                          (n_elts s2) (next s2) (indx s2))
+            else Ok (mkuf (elts s2) (upd (par s2) yr xr) (upd (siz s2) xr (sx + sy)) (pred (ncomps s2))
+                          (n_elts s2) (next s2) (indx s2))
       | ValueError => ValueError | OutOfFuel => OutOfFuel
       end
   | ValueError => ValueError | OutOfFuel => OutOfFuel
@@ -154,15 +171,22 @@ Definition mapping (s : uf) : res (uf * list (Z * list Z)) :=
   | ValueError => ValueError | OutOfFuel => OutOfFuel
   end.
 
+(* unionfind.py: __getitem__ ; None models IndexError (raised by the explicit bounds test, which also
+   rejects Python's negative indices, or - never on reachable states - by the list access itself) *)
+Definition getitem (s : uf) (i : Z) : option Z :=
+  if (Z.ltb i 0 || Z.leb (Z.of_nat (next s)) i)%bool then None
+  else nth_error (elts s) (Z.to_nat i).
+
 (* ------------------------------------------------------------------ history machine *)
 Inductive op :=
 | Add (x : Z) | Union (x y : Z) | Find (x : Z) | Connected (x y : Z) | Component (x : Z)
-| Roots | Components | Mapping | Len | NComps | Contains (x : Z).
+| Roots | Components | Mapping | Len | NComps | Contains (x : Z) | GetItem (i : Z).
 
 (* what the implementation was seen to answer (canonicalised by the harness) *)
 Inductive obs :=
 | ONone                         (* returned None *)
 | OValueError                   (* raised ValueError: element absent *)
+| OIndexError                   (* raised IndexError: uf[i] out of bounds *)
 | OOther                        (* raised anything else / ill-formed answer *)
 | ONat (n : nat)
 | OBool (b : bool)
@@ -257,9 +281,14 @@ Definition step (s : uf) (o : op) (w : obs) : res (uf * bool) :=
                   | _ => false end)
       | ValueError => ValueError | OutOfFuel => OutOfFuel
       end
-  | Len => Ok (s, match w with ONat n => Nat.eqb n (length (elts s)) | _ => false end)
+  | Len => Ok (s, match w with ONat n => Nat.eqb n (n_elts s) | _ => false end)
   | NComps => Ok (s, match w with ONat n => Nat.eqb n (ncomps s) | _ => false end)
   | Contains x => Ok (s, match w with OBool b => Bool.eqb b (mem s x) | _ => false end)
+  | GetItem i =>
+      match getitem s i with
+      | Some e => Ok (s, match w with OElt e' => Z.eqb e e' | _ => false end)
+      | None => Ok (s, match w with OIndexError => true | _ => false end)
+      end
   end.
 
 (* run a whole history; true iff every observation agrees and no step errs *)
@@ -286,7 +315,7 @@ Definition apply (s : uf) (o : op) : uf :=
   | Roots => match roots s with Ok (s', _) => s' | _ => s end
   | Components => match components s with Ok (s', _) => s' | _ => s end
   | Mapping => match mapping s with Ok (s', _) => s' | _ => s end
-  | Len | NComps | Contains _ => s
+  | Len | NComps | Contains _ | GetItem _ => s
   end.
 
 Definition reach (h : list op) : uf := fold_left apply h uf_empty.
